@@ -190,6 +190,17 @@ CHECKS = {
          "(error of the contract, or readable + same nuclei/orbitals/occupations/energies/spin/density, conversions announced).",
     note="floating-point comparison of orbital values is done by the projection (tolerance 2e-6..3e-5 of the sum of |c x chi|); independent readers exist for WFN/WFX only",
     technique="TLA+ denotation model (Wavefunction.tla) checked with TLC + TLC validation of projected dump/reload records using a reference evaluator"),
+ "C05": dict(
+    category="exploration", design_ref="DESIGN.md section 6 C05",
+    text="Vendors.tla encodes every known deviation (ORCA, PSI4 < 1.0, Turbomole, CFOUR 2.1, unnormalised contractions, PSI4 <= "
+         "1.3.2) as a map shell type -> symbolic distortion and every correction of the loader as its inverse; TLC checks "
+         "StandardNeedsNoFix, CascadeSound, CascadeCompleteForVendor, NoFixOnlyIfIdentity over every subset of shell types each "
+         "vendor allows; an independent Molden/Molekel writer applies the documented deviations to true wavefunctions with complete "
+         "reference-orthonormal orbital sets ({Molden, Molekel} x {AU, Angs} x restricted/unrestricted x norm_threshold), the real "
+         "loader reads them and TLC validates (same orbitals at probe points, orthonormal w.r.t. the returned basis, warning in "
+         "Admissible(vendor, types) | corrupted encodings rejected).",
+    note="the deviations are transcribed from the documentation of the corrections; numerical near-coincidences within norm_threshold are sampled, not decided",
+    technique="TLA+ distortion/correction algebra (Vendors.tla) checked with TLC + TLC validation of loads of independently written vendor-encoded files"),
 }
 NOT_YET = "check not built yet in this round (planned, see DESIGN.md section 6)"
 
